@@ -1,6 +1,6 @@
 (* CollectionsProof.v — proofs about Collections.v (model M) and CollectionsSpec.v (spec S). *)
 From stdpp Require Import gmap list.
-From Coq Require Import NArith ZArith Lia.
+From Coq Require Import NArith ZArith Lia DecimalN DecimalPos.
 Require Import DS.Collections DS.CollectionsSpec DS.CollectionsTables.
 
 (* ---- the take-out / put-back helpers ------------------------------------------------------- *)
@@ -113,6 +113,39 @@ Lemma lookupN_eq l idx : lookupN l idx = l !! N.to_nat idx.
 Proof.
   unfold lookupN. destruct (len_gt l idx) eqn:E; [reflexivity|].
   symmetry. apply lookup_ge_None. now apply len_gt_ge.
+Qed.
+
+(* ---- printing a number and parsing it back ---------------------------------------------------- *)
+Lemma dv_acc l : forall acc, digits_val (Npos acc) (uint_codes l) = Some (Npos (Pos.of_uint_acc l acc)).
+Proof.
+  induction l; intros acc; cbn [uint_codes digits_val Pos.of_uint_acc]; try reflexivity;
+  match goal with |- context [if ?b then _ else _] => change b with true end; cbv iota;
+  rewrite <- IHl; f_equal; lia.
+Qed.
+Lemma dv_0 l : digits_val 0 (uint_codes l) = Some (Pos.of_uint l).
+Proof.
+  induction l; cbn [uint_codes digits_val Pos.of_uint]; try reflexivity;
+  match goal with |- context [if ?b then _ else _] => change b with true end; cbv iota;
+  [exact IHl | ..]; rewrite <- dv_acc; reflexivity.
+Qed.
+Lemma digits_dec n : digits (dec_N n) = Some n.
+Proof.
+  unfold dec_N, digits. pose proof (dv_0 (N.to_uint n)) as H.
+  change (Pos.of_uint (N.to_uint n)) with (N.of_uint (N.to_uint n)) in H.
+  rewrite DecimalN.Unsigned.of_to in H.
+  destruct (uint_codes (N.to_uint n)) eqn:E; [|exact H].
+  destruct n; [discriminate E|]. cbn in H. discriminate.
+Qed.
+Lemma no_plus u : match uint_codes u with 43%N :: _ => False | _ => True end.
+Proof. destruct u; exact I. Qed.
+Lemma parse_usize_dec n : (n < 18446744073709551616)%N -> parse_usize (dec_N n) = Some n.
+Proof.
+  intros H. unfold parse_usize.
+  assert (E : match dec_N n with 43%N :: r => r | _ => dec_N n end = dec_N n).
+  { unfold dec_N. pose proof (no_plus (N.to_uint n)) as P. destruct (uint_codes (N.to_uint n)) as [|c r]; [reflexivity|].
+    destruct (N.eq_dec c 43) as [->|Hc]; [contradiction|]. 
+    destruct c as [|p]; [reflexivity|]. repeat (destruct p as [p|p|]; try reflexivity). congruence. }
+  rewrite E, digits_dec. apply N.ltb_lt in H. now rewrite H.
 Qed.
 
 (* ---- recursive release: termination ---------------------------------------------------------- *)
@@ -775,4 +808,19 @@ Proof.
   - destruct (first_bad (hs s) args 0) as [j|] eqn:G.
     + cbn. auto.
     + apply first_bad_none in G. congruence.
+Qed.
+
+(* pushing values and reading them back at the indexes array_length announces *)
+Lemma verbatim_array_dec rnd ord s h l vs :
+  look_list (hs s) h = Found l -> (N.of_nat (length l + length vs) < 18446744073709551616)%N ->
+  let s' := (step_s rnd ord CArrayPush (h :: vs) s).2 in
+  step_s rnd ord CArrayLength [h] s' = (Cont (Some (dec_nat (length l + length vs))), s') /\
+  forall j v, vs !! j = Some v ->
+    step_s rnd ord CArrayGet [h; dec_nat (length l + j)] s' = (Cont (Some v), s').
+Proof.
+  intros E Hlen s'. destruct (verbatim_array rnd ord s h l vs E) as [E' G]. fold s' in E', G. split.
+  - unfold step_s. cbv beta iota zeta delta [spec]. unfold on. rewrite E'.
+    now rewrite app_length, fmap_length.
+  - intros j v Hj. apply (G j v); [exact Hj|]. apply parse_usize_dec.
+    apply lookup_lt_Some in Hj. lia.
 Qed.
